@@ -9,7 +9,7 @@ CONSTANTS
   HiVals, LoVals, \* election ids are HiVals \X LoVals (plus the zero id in messages)
   ParamMsgs,   \* "good" | "all": which session-parameter messages are in the alphabet
   WithBadMsgs, \* BOOLEAN: multi-field and empty messages
-  OpShapes,    \* "chain" | "nh": operations in the alphabet
+  OpShapes,    \* "chain" | "nh" | "none": operations in the alphabet
   StampModes,  \* subset of {"last", "any", "none"}: election id stamped on operations
   FwdModes, AckModes,
   MaxMsgs,     \* messages per behaviour
@@ -36,7 +36,8 @@ BaseOp(id, t, kd, k) ==
    bk |-> "", g |-> "", gni |-> "", bad |-> "", eid |-> NoId, noeid |-> FALSE]
 
 Shapes(id) ==
-  IF OpShapes = "nh"
+  IF OpShapes = "none" THEN {}
+  ELSE IF OpShapes = "nh"
   THEN {BaseOp(id, "ADD", "nh", "1"), [BaseOp(id, "DELETE", "nh", "1") EXCEPT !.pl = ""]}
   ELSE {BaseOp(id, "ADD", "nh", "1"),
         [BaseOp(id, "ADD", "nhg", "1") EXCEPT !.nhs = <<"1">>],
